@@ -14,12 +14,15 @@ OPS = [";", "&&", "||"]
 DECOYS = ["';'", '"&&"', "'||'", "a\\;b", "'#'", '"|"', "\\;", "'a && b'", '"x;y"',
           '"p\\";q"', '"u \\" && v \\" w"', '"e \\" || f"', "中文", "'日本 ; 語'", '"é && é"', "é",
           # escaped operators as words of their own and inside a word (a word that starts with an escaped | gets a tag of its own)
-          "\\|\\|", "\\|\\|x", "a\\|\\|b", "\\&\\&x", "a\\&\\&b", "\\|"]
+          "\\|\\|", "\\|\\|x", "a\\|\\|b", "\\&\\&x", "a\\&\\&b", "\\|",
+          # a `#` that is not at the start of a word is part of the word (no comment: the rest of the line still runs)
+          "a#b", "x#", "p#q.r"]
 DECOY_VALUES = {"';'": ";", '"&&"': "&&", "'||'": "||", "a\\;b": "a;b", "'#'": "#", '"|"': "|", "\\;": ";",
                 "'a && b'": "a && b", '"x;y"': "x;y",
                 '"p\\";q"': 'p";q', '"u \\" && v \\" w"': 'u " && v " w', '"e \\" || f"': 'e " || f',
                 "中文": "中文", "'日本 ; 語'": "日本 ; 語", '"é && é"': "é && é", "é": "é",
-                "\\|\\|": "||", "\\|\\|x": "||x", "a\\|\\|b": "a||b", "\\&\\&x": "&&x", "a\\&\\&b": "a&&b", "\\|": "|"}
+                "\\|\\|": "||", "\\|\\|x": "||x", "a\\|\\|b": "a||b", "\\&\\&x": "&&x", "a\\&\\&b": "a&&b", "\\|": "|",
+                "a#b": "a#b", "x#": "x#", "p#q.r": "p#q.r"}
 
 # operands that set the status to 0 without running a program
 SILENT = {"source-defs": "source defs.sh", "assign": "VA%(i)d=v%(i)d", "assign2": "VA%(i)d=1 VB%(i)d=2", "export": "export VX%(i)d=1", "cd": "cd .", "alias": "alias zz%(i)d=vp_a"}
@@ -106,6 +109,12 @@ def judge(case):
         elif mode == "script-in-else":
             text = "if vp_status 1 T0\n    vp_status 0 NEVER\nelse\n    %s\nfi\n" % line
             pre = [("vp_status", ["1", "T0"])]
+        elif mode == "script-in-for-break":
+            # ... as the body of a `for` loop left by `break` in its first round
+            text = "for vv in 1 2\n    %s\n    break\ndone\n" % line
+        elif mode == "function-captured":
+            # the list is the body of a function whose output is captured: statuses decide inside it just the same
+            text = "function vf {\n    %s\n}\nVX=$(vf)\n" % line
         elif mode == "function-in-list":
             text = ("function vf {\n    if vp_status 0 T0; then\n        %s\n    fi\n}\n"
                     "vf && vp_status 0 AND || vp_status 4 OR\n" % line)
@@ -124,6 +133,8 @@ def judge(case):
         res["script"] = text
     if post:
         exp_st = res["expected_rc"] = 0 if exp_st == 0 else 4
+    if mode == "function-captured":
+        exp_st = res["expected_rc"] = 0       # (the script's last line is an assignment)
     if r.timed_out:
         return ("inconclusive", "timeout", res)
     c = crashed(r)
@@ -202,7 +213,7 @@ def gen_cases(tier, seed):
                 opd = ("s", rng.choice([0, 0, 1, 2, 7, 127, 255]), "m%d" % i, dec)
             prog.append((op, opd))
         spacing = [rng.choice([(" ", " "), ("", ""), ("  ", " "), (" ", "")]) for _ in range(3)]
-        mode = rng.choice(["c", "c", "c", "script", "script", "script-noeol", "script-in-if", "script-in-else", "function-in-list"])
+        mode = rng.choice(["c", "c", "c", "script", "script", "script-noeol", "script-in-if", "script-in-else", "function-in-list", "function-captured", "script-in-for-break"])
         # (script lines used to be re-rendered before list splitting, which mangled `a||b` and backslash
         # decoys; since the C16 repair the script entry gets the same spacings and decoys as -c)
         cases.append({"prog": prog, "mode": mode, "spacing": spacing, "class": "random"})
